@@ -5,6 +5,7 @@
    repair); the theorems hold for every program set and EVERY such schedule. *)
 From Coq Require Import Permutation Sorted.
 From V Require Import Base.Bytes Run.Reload Proofs.ReloadProofs.
+Require V.Export.SeqIR V.Proofs.SeqIRProofs.
 Local Open Scope N_scope.
 
 (* [assigned] records hand-overs: only FanOut extends it, by the line being
@@ -98,3 +99,70 @@ Print Assumptions C20_order.
 Print Assumptions C20_gauge_last.
 Print Assumptions C20_order_refuted.
 Print Assumptions C20_refuting_schedule_excluded.
+
+(* ====================================================================== *)
+(* STRUCTURE (added by the C11/C12 translator work; model Export/SeqIR.v, proofs
+   Proofs/V.Proofs.SeqIRProofs.v, correspondence Corr/Run_C20_struct.v).  The event
+   model above assumes facts about runtime.go / vm.go; the ordered-events IR of
+   CompileAndRun, startVM, UnloadProgram, New's line loop and the VM goroutine
+   is re-extracted from the source on every run and must be accepted by the
+   automata d_loop, d_reload, d_lock, d_vm. *)
+Section C20_structure.
+Import V.Export.SeqIR.
+
+(* if the checker reports nothing, the automaton accepts EVERY trace of the IR
+   (any branch at every if, any number of iterations of every loop) *)
+Theorem C20_struct_checker_sound :
+  forall (Q : Type) (qeqb : Q -> Q -> bool), (forall a b, qeqb a b = true <-> a = b) ->
+  forall (delta : Q -> SeqIR.rev -> option Q) (invs : N -> list Q) (b : qblock) (q0 : Q),
+    qviolations Q qeqb delta invs b q0 = [] ->
+    forall tr f, qrun_block b tr f -> exists q', arun Q delta q0 tr = Some q'.
+Proof. exact V.Proofs.SeqIRProofs.qcheck_sound. Qed.
+
+(* what acceptance by d_reload means: between close(old.lines) and a later
+   startVM / ms.Add, CompileAndRun has received from old.done *)
+Theorem C20_struct_reload_waits :
+  forall t1 t2 t3 q0 q',
+    (arun rq d_reload q0 (t1 ++ CloseLines :: t2 ++ CallStartVM :: t3) = Some q' -> In RecvDone t2) /\
+    (arun rq d_reload q0 (t1 ++ CloseLines :: t2 ++ CallAdd :: t3) = Some q' -> In RecvDone t2).
+Proof.
+  intros. split; [apply V.Proofs.SeqIRProofs.reload_waits_before_start|apply V.Proofs.SeqIRProofs.reload_waits_before_add].
+Qed.
+
+(* the hypothesis of the repaired Reload event ("enabled only when the old VM
+   is idle"): in every joint schedule of a CompileAndRun accepted by d_reload
+   and an old-VM goroutine accepted by d_vm in which a receive from `done`
+   follows its close, the old VM processes nothing once its successor has
+   been started *)
+Theorem C20_struct_old_vm_idle_at_install :
+  forall s qr qv,
+    arun rq d_reload (mkRQ L0 O0) (proj true s) = Some qr ->
+    arun vq d_vm V0 (proj false s) = Some qv ->
+    done_rule s ->
+    forall s1 s2 s3, s = s1 ++ (true, CloseLines) :: s2 ++ (true, CallStartVM) :: s3 ->
+    ~ In (false, VmProcess) s3.
+Proof. exact V.Proofs.SeqIRProofs.old_vm_idle_at_install. Qed.
+
+(* ... so the order of C20_order_refuted - `Reload 0`, later `Process 0 1` by
+   the old version - is not the image of any such schedule; it is a schedule of
+   the code before e1b9b7cf, whose IR the checker refuses *)
+Theorem C20_struct_refuting_order_excluded :
+  (forall s qr qv,
+     arun rq d_reload (mkRQ L0 O0) (proj true s) = Some qr ->
+     arun vq d_vm V0 (proj false s) = Some qv ->
+     done_rule s ->
+     forall s1 s2 s3, s = s1 ++ (true, CloseLines) :: s2 ++ (true, CallStartVM) :: s3 ->
+     V.Proofs.SeqIRProofs.images ((true, CallStartVM) :: s3) = Reload 0 :: V.Proofs.SeqIRProofs.images s3 /\
+     ~ In (Process 0 1) (V.Proofs.SeqIRProofs.images s3)) /\
+  In (Process 0 1) [Take true; FanOut 0; Process 0 2; Process 0 1] /\
+  (exists tr, qrun_block compile_and_run_old tr QRet /\ arun rq d_reload (mkRQ L0 O0) tr = None).
+Proof.
+  split; [exact V.Proofs.SeqIRProofs.refuting_order_excluded|].
+  split; [simpl; tauto|exact V.Proofs.SeqIRProofs.old_shape_refused].
+Qed.
+End C20_structure.
+
+Print Assumptions C20_struct_checker_sound.
+Print Assumptions C20_struct_reload_waits.
+Print Assumptions C20_struct_old_vm_idle_at_install.
+Print Assumptions C20_struct_refuting_order_excluded.
